@@ -4,6 +4,7 @@ import threading
 import time
 import urllib
 from . import packet
+from . import payload
 
 default_logger = logging.getLogger('engineio.client')
 connected_clients = []
@@ -150,6 +151,18 @@ class BaseClient:
                     path=engineio_path, query=parsed_url.query,
                     sep='&' if parsed_url.query else '',
                     transport=transport)
+
+    def _decode_payload(self, encoded_payload):
+        """Decode a payload received from the server.
+
+        The limit on the number of packets per payload protects servers from
+        their clients. It does not apply to what a server sends: a polling
+        response carries everything that was queued for the client.
+        """
+        p = payload.Payload()
+        p.max_decode_packets = len(encoded_payload) + 1
+        p.decode(encoded_payload)
+        return p
 
     def _get_url_timestamp(self):
         """Generate the Engine.IO query string timestamp."""
